@@ -5,6 +5,10 @@ CONSTANTS
   Fresh = FALSE
   SortKinds <- MC6_SortKinds
   Seps <- MC_Seps
+  XKeys <- MC_NoXKeys
+  XVals <- MC_XVals
+  MaxEx = 0
+  FillNs <- MC_NoXKeys
   Gen = "no"
 VIEW view
 INVARIANTS ListView ResultsAgree QueriesAgree
